@@ -2,12 +2,14 @@ from propdefs.common import *
 
 PROP = {
     "bin": "c10",
+    "minimize": True,   # harness implements `--only i --keep p0,p1,..` (notes/minimisation.md)
     "coq_targets": ["theories/SSA/C10Check"],
     "coq_targets_thorough": ["theories/SSA/SsaSmall"],
     "n": {"quick": 480, "thorough": 12000},
     "theorems": ["ssa_check_sound", "check_typing_sound", "ssa_step_sim", "ssa_operands_agree",
-                 "ssa_total_partial", "ssa_model_erase", "ssa_model_single_def", "ssa_correct_partial"],
-    "rule": "random IL functions, one xoshiro256** stream per (seed,index): fixed skeletons (diamond whose join branches on guards, nested "
+                 "ssa_total_partial", "ssa_model_erase", "ssa_model_single_def", "ssa_model_arity", "ssa_correct_partial",
+                 "non_locals_cover", "idf_covered_model", "idf_no_phi_agree", "idf_no_phi_entry"],
+    "rule": "cases 0-7 of every seed are fixed shapes (entry self-loop with/without exit, dominator-tree siblings and deep chains that redefine a name, a scalar read and written by the same instruction as its only reader (assign/load), Lengauer-Tarjan's 13-block flow graph, a 12-block ladder); then random IL functions, one xoshiro256** stream per (seed,index): fixed skeletons (diamond whose join branches on guards, nested "
             "diamonds inside a loop, loop through the entry, self-loops, three-way fans) 5/12 and random CFGs of 1-8 blocks with back edges, "
             "self-loops and (1/3) blocks unreachable from the entry 7/12; 0-3 instructions per block (assign 60%, load 10%, store 10%, nop 4-20%, "
             "intrinsics with/without declared effects (1-2 written / read expressions) 16% in 1/3 of the cases; in 1/3 of the cases blocks lose an instruction through remove_instruction (index gaps)) over 3-6 scalars of widths 1/8/16/32/64; in 1/4 of the cases a scalar "
@@ -19,8 +21,10 @@ PROP = {
                 "decided per output by running the verified validator in the kernel [V], proved for 74 676 enumerated functions of <= 3 blocks [F], "
                 "and the Gallina model of the algorithm is tied to the Rust output on every generated case [D]",
                 "what is proved of it [U]: the model returns Ok (under C11's Semi-NCA hypothesis `semi_nca_ok`), its output erases to the input, "
-                "has unique versioned definitions and well-formed structure; ssa_check f f' = remaining f' (uses defined, local consistency of the "
-                "inferred typing = the iterated-dominance-frontier argument, phi arity) is the open rest",
+                "has unique versioned definitions, well-formed structure and phi arity; ssa_check f f' = remaining f' (uses defined, local consistency of the "
+                "inferred typing); of `remaining` the dominance-frontier content is proved (the placement covers the iterated frontier: idf_covered_model; "
+                "idf_no_phi_agree/idf_no_phi_entry), the renaming invariant of the dominator-tree walk and the completeness of `infer` are the open rest "
+                "(SsaComplete.ssa_remaining_open)",
                 "`ssa_total_partial` is conditional on `semi_nca_ok` (unbounded correctness of Semi-NCA is C11's open item)",
                 "`ssa_model_passes_small` [F] is built and checked in the thorough tier only (SSA/SsaSmall.v, coq_targets_thorough)"],
     "level_text": "Unbounded Coq theorem `ssa_check_sound` (closed under the global context): whenever the executable validator accepts (f, f'), "
